@@ -27,12 +27,11 @@ def restrict(t, c, val):
                 return a[2] if val else a[3]
             if a[1] == nc:
                 return a[3] if val else a[2]
-        if a[0] == "cmp" or a[0] in ("and", "or", "not"):
-            me = atom(a)
-            if me == c:
-                return T.TRUE if val else T.FALSE
-            if me == nc:
-                return T.FALSE if val else T.TRUE
+        me = atom(a)  # any occurrence of the condition itself (a comparison, a connective, a boolean-valued call such as any(...))
+        if me == c:
+            return T.TRUE if val else T.FALSE
+        if me == nc:
+            return T.FALSE if val else T.TRUE
         return None
     return T.subst(t, f)
 
